@@ -518,6 +518,7 @@ def gen_mtl_program(rng, dtype="float64", n_heads=None, n_features=None, allow_a
         heads = []
         ok = True
         free_pool = list(range(npool))
+        common_hv = None
         for h in range(nh):
             hf = [i for i in range(len(feats)) if rng.random() < 0.8]
             if not hf and rng.random() < 0.7:
@@ -533,13 +534,21 @@ def gen_mtl_program(rng, dtype="float64", n_heads=None, n_features=None, allow_a
             if allow_around and rng.random() < 0.3:
                 ha = [int(rng.integers(ns))]
             hv = []
-            if allow_around_values and rng.random() < 0.35:
+            if allow_around_values and rng.random() < (0.6 if common_hv is not None else 0.35):
                 # trunk intermediate values that are not features and not computed from a feature (siblings of a
                 # multi-output node, ancestors of features, side branches): the loss reaches the trunk AROUND the features
                 cv = [i for i in g.tensor_ids() if i >= ns and i not in feats and g.deps[i]
                       and not any(f in g.anc[i] for f in feats)]
-                if cv:
+                # (half of the time) a value whose leaves lie under no feature at all: it belongs to the tasks only
+                fdeps = frozenset().union(*[g.deps[f] for f in feats])
+                side = [i for i in cv if not (g.deps[i] & fdeps)]
+                if side and rng.random() < 0.5:
+                    cv = side
+                if common_hv is not None and rng.random() < 0.6:
+                    hv = [common_hv]  # SEVERAL heads start from one and the same intermediate (non-leaf, non-feature) tensor
+                elif cv:
                     hv = [int(cv[rng.integers(len(cv))])]
+                    common_hv = hv[0]
             base_vals = [g.values[feats[i]] for i in hf] + [pl[i] for i in hl] + [sl[i] for i in ha] + [g.values[i] for i in hv]
             base_deps = ([frozenset([("f", i)]) for i in hf]
                          + [frozenset([("p", i)]) if pool[i]["rg"] else frozenset() for i in hl]
